@@ -244,7 +244,12 @@ func c19(ctx *core.Ctx) {
 			}
 		}
 		// (a) sequential history, random order with repetitions
-		hist := make([]int, 200)
+		nh := 200
+		if ci%16 == 5 {
+			nh = 5000 // a long-lived container: the thousandth request is answered like the first
+			ctx.Count("long_histories", 1)
+		}
+		hist := make([]int, nh)
 		for k := range hist {
 			hist[k] = r.Intn(len(reqs))
 		}
